@@ -153,18 +153,21 @@ From BWValues Require Import Bytes Values Codec Uuid Io Dom Corr.
 
 
 def model_eval(ctx, name, rows, shard=600):
-    """returns (mismatch indices, in-domain indices) over rows, the model evaluated inside Coq"""
-    bad, dom = [], []
+    """returns (mismatch indices, in-domain indices, indices with an ill-formed observed value) over rows, the model
+    evaluated inside Coq"""
+    bad, dom, ill = [], [], []
     for k in range(0, len(rows), shard):
         part = rows[k:k + shard]
         v = HEADER + "Definition T : tables := %s.\nDefinition O := table_oracles T.\n" % merged_tables(part)
         v += "Definition cases : list case := [\n" + ";\n".join(c_case(r) for r in part) + "].\n"
         v += "Definition M := Eval vm_compute in mismatches_from O 0%N cases.\nPrint M.\n"
         v += "Definition D := Eval vm_compute in in_domain_from 0%N cases.\nPrint D.\n"
+        v += "Definition W := Eval vm_compute in illformed_from 0%N cases.\nPrint W.\n"
         out = vcheck.coq_eval(ctx.work, "%s_%d" % (name, k), v)
         bad += [k + i for i in vcheck.parse_nat_list(out, "M")]
         dom += [k + i for i in vcheck.parse_nat_list(out, "D")]
-    return bad, dom
+        ill += [k + i for i in vcheck.parse_nat_list(out, "W")]
+    return bad, dom, ill
 
 
 def strip(r):
